@@ -40,12 +40,13 @@ class C10(Prop):
                    "interleaved; within one command the notes thread is serialised by BLOCKING_MAX_THREADS=1)",
                    "notes for commits a repository does not have are allowed"]
     expected_probes = ["step.commit", "step.push", "step.fetch", "step.pull", "fault.net_down", "fault.kill", "converged.checked",
-                       "first_sync_without_notes_ref", "notes_from_two_clones"]
+                       "first_sync_without_notes_ref", "notes_from_two_clones", "foreign_note.written"]
 
     def header(self, rng, tier, index):
         return {"world": {"mode": "wrapper", "use_simgit": True}, "sessions": ["sa", "sb", "sc"],
                 "cfg": {"n_clones": rng.choice([2, 2, 3]), "steps": rng.randint(8, 16 if tier == "quick" else 28),
-                        "early_clone": rng.random() < 0.6, "faults": rng.random() < 0.5},
+                        "early_clone": rng.random() < 0.6, "faults": rng.random() < 0.5,
+                        "foreign": rng.randint(5, 9) if rng.random() < 0.3 else 0},
                 "init": {"files": {}}, "next_id": 100}
 
     # ------------------------------------------------------------------ world
@@ -95,6 +96,17 @@ class C10(Prop):
                     env = {"SIMGIT_PLAN": "%d=kill" % rng.randint(3, 40), "SIMGIT_STATE": "{ROOT}/simgit.state"}
                     ex.probe("fault.kill")
                 kind = rng.choice(["push", "fetch", "pull"])
+            if cfg.get("foreign") and step == cfg["foreign"] and kind != "commit":
+                # somebody else (another tool version, a re-run CI job) overwrites one note on the remote with a
+                # different, well-formed one; the author's clone then syncs: its own note must survive untouched
+                # (the author published the commit with a git that is not the wrapper, so its note is still local only)
+                n2 = rng.choice(cloned)
+                yield {"op": "sync", "kind": "commit", "clone": n2, "file": "f%d.txt" % rng.randint(0, 2),
+                       "own_branch": True, "session": "s" + n2, "lines": rng.randint(2, 3), "dt": 3000}
+                yield {"op": "sync", "kind": "plain_push", "clone": n2, "dt": 3000}
+                yield {"op": "sync", "kind": "foreign_note", "clone": n2, "dt": 3000}
+                yield {"op": "sync", "kind": rng.choice(["fetch", "pull", "push"]), "clone": n2, "dt": 3000, "form": 0}
+                continue
             if kind == "commit":
                 own_branch = rng.random() < 0.4
                 yield {"op": "sync", "kind": "commit", "clone": n, "file": "f%d.txt" % rng.randint(0, 2),
@@ -137,6 +149,13 @@ class C10(Prop):
             return {"code": r.code, "err": r.err}
         if kind == "converge_check":
             return {"code": 0}
+        if kind == "foreign_note":
+            return self.foreign_note(ex, op["clone"])
+        if kind == "plain_push":
+            repo = ex.repos[op["clone"]]
+            branch = w.raw_git(repo, "rev-parse", "--abbrev-ref", "HEAD").out.strip()
+            r = w.raw_git(repo, "-c", "core.hooksPath=/dev/null", "push", "-q", "-u", "origin", branch)
+            return {"code": r.code, "err": r.err}
         n = op["clone"]
         repo = ex.repos[n]
         if kind == "commit":
@@ -201,6 +220,53 @@ class C10(Prop):
             return {"code": r.code, "err": r.err}
         raise ValueError(kind)
 
+    def foreign_note(self, ex, owner):
+        """somebody else writes, on the remote, a (different, well-formed) note for a commit whose author has
+        published the commit but not yet its note"""
+        w = ex.w
+        st = ex.gen_state
+        remote = ex.repos["remote"]
+        repo = ex.repos[owner]
+        fc = os.path.join(w.root, "foreign-clone")
+        if not os.path.isdir(fc):
+            w.raw_git(w.root, "clone", "-q", remote, fc)
+        w.raw_git(fc, "fetch", "-q", "origin", "+refs/heads/*:refs/remotes/origin/*")
+        w.raw_git(fc, "fetch", "-q", "origin", "+refs/notes/ai:refs/notes/ai")
+        rm = note_map(w, remote)
+        have = set(w.raw_git(remote, "rev-list", "--all").out.split())
+        mine = note_map(w, repo)
+        cands = sorted(c for c in mine if c in have and c not in rm and mine[c] != "{}" and st["owner"].get(c, ("",))[0] == owner
+                       and c not in st.setdefault("contested", {}))
+        for c in cands:
+            raw = w.raw_git(repo, "notes", "--ref=ai", "show", c).out
+            lines = raw.split("\n")
+            try:
+                div = lines.index("---")
+            except ValueError:
+                continue
+            idx = [i for i in range(div) if lines[i].startswith("  ")]
+            if not idx:
+                continue
+            i = idx[-1]
+            head, _, ranges = lines[i].rpartition(" ")
+            items = ranges.split(",")
+            last = items[-1]
+            if "-" in last:
+                a, b = last.split("-")
+                items[-1] = a if int(b) - 1 <= int(a) else "%s-%d" % (a, int(b) - 1)
+            elif len(items) > 1:
+                items.pop()
+            else:
+                continue
+            lines[i] = head + " " + ",".join(items)
+            r = w.raw_git(fc, "notes", "--ref=ai", "add", "-f", "-F", "-", c, stdin="\n".join(lines).encode())
+            r2 = w.raw_git(fc, "push", "-q", "origin", "refs/notes/ai:refs/notes/ai")
+            if r.code == 0 and r2.code == 0:
+                st["contested"][c] = owner
+                ex.probe("foreign_note.written")
+                return {"code": 0, "commit": c}
+        return {"code": 0, "skipped": True}
+
     # ------------------------------------------------------------------ oracle
     def check(self, ex, op, final):
         w = ex.w
@@ -213,8 +279,11 @@ class C10(Prop):
         if actor in maps:
             for c, note in maps[actor].items():
                 owner.setdefault(c, (actor, note))
+        contested = st.get("contested", {})
         for k in sorted(maps):
             for c, note in maps[k].items():
+                if c in contested and k != contested[c]:
+                    continue        # a foreign writer replaced this note on the remote: only the author's clone is held to it
                 if c in owner and owner[c][1] != note and json.loads(owner[c][1] if owner[c][1].startswith("{") else "{}"):
                     return {"monitor": "sync.safety", "class": "note_replaced_by_sync",
                             "detail": {"repo": k, "commit": c, "owner": owner[c][0], "owner_note": owner[c][1][:200],
@@ -230,6 +299,8 @@ class C10(Prop):
             for k in ["remote"] + clones:
                 have = set(w.raw_git(repos[k], "rev-list", "--all").out.split())
                 for c, (who, note) in sorted(owner.items()):
+                    if c in contested and k != contested[c]:
+                        continue
                     if c in have and note != "{}" and maps[k].get(c) != note:
                         return {"monitor": "sync.convergence", "class": "note_missing_after_everyone_pushed_and_fetched",
                                 "detail": {"repo": k, "commit": c, "owner": who, "expected": note[:200],
